@@ -32,3 +32,10 @@ check("C15", "model_checking",
 check("C19", "model_checking",
       "Model: TLC proves the implementation's per-round NAT fold equal to the declarative statement of the property for all paths of 6 hops with up to 3 rewriting devices and all sets of responding hops. Implementation: real IPv4/UDP/Dublin traces over simulated paths with rewriting devices and silent hops (and other configurations, which must report not-applicable); statuses are compared by TLC with simulator ground truth.",
       TRUSTED, "TLC model checking of spec/Nat.tla + TLC trace validation with spec/mon/MonState.tla (C19_Status/Truth/Model)", "7 C19")
+
+check("C02", "model_checking",
+      "Model: TLC checks on Wire.tla (Encode / Quote / Decode / Validate transcribed from probe_*_data, dispatch_*, ProtocolStrategyResponse::from and Strategy::validate) that every supported cell recovers exactly the sequence it encoded under every quotation variation, rejects every foreign variation and never confuses two probes of a round (boundary sequences quick, all 65535 thorough). Implementation: a systematic sweep cell x family x privilege x quotation form (8 octets, 28 octets, whole, RFC 4884 compliant / legacy with MPLS) x TOS rewrite through the real Channel and Strategy; TLC checks every genuine response completes exactly its probe and every foreign quotation is a no-op.",
+      TRUSTED, "TLC model checking of spec/Wire.tla + TLC trace validation (C01_Exact, C03_NoOp, C11_Wire over the codec sweep)", "7 C02")
+check("C11", "model_checking",
+      "Every datagram handed to the send socket in the sweep (all cells, sizes 28/48..1024, tos, pattern, ttl, boundary initial sequences) is decoded by the independent RFC decoder and compared by TLC with the Wire!Encode table (target, TTL, TOS, DF, carrier field, identifier, size, pattern, length consistency, ICMP/UDP checksums).",
+      TRUSTED, "TLC trace validation with the TLA+ Encode table as oracle (C11_Wire, C11_OneDatagram) + TLC model checking of spec/Wire.tla", "7 C11")
